@@ -171,7 +171,13 @@ func (d *IPv4Defragmenter) dontDefrag(ip *layers.IPv4) bool {
 
 // securityChecks performs the needed security checks
 func (d *IPv4Defragmenter) securityChecks(ip *layers.IPv4) error {
-	fragSize := ip.Length - uint16(ip.IHL)*4
+	fragSize := int(ip.Length) - int(ip.IHL)*4
+
+	// don't allow a header longer than the packet
+	if fragSize < 0 {
+		return fmt.Errorf("defrag: header longer than packet "+
+			"(handcrafted? %d > %d)", int(ip.IHL)*4, ip.Length)
+	}
 
 	// don't allow small fragments outside of specification
 	if ip.Flags&layers.IPv4MoreFragments != 0 && fragSize < IPv4MinimumFragmentSize {
@@ -184,12 +190,12 @@ func (d *IPv4Defragmenter) securityChecks(ip *layers.IPv4) error {
 		return fmt.Errorf("defrag: fragment offset too big "+
 			"(handcrafted? %d > %d)", ip.FragOffset, IPv4MaximumFragmentOffset)
 	}
-	fragOffset := ip.FragOffset * 8
+	fragOffset := int(ip.FragOffset) * 8
 
 	// don't allow fragment that would oversize an IP packet
-	if fragOffset+ip.Length > IPv4MaximumSize {
+	if fragOffset+int(ip.Length) > IPv4MaximumSize {
 		return fmt.Errorf("defrag: fragment will overrun "+
-			"(handcrafted? %d > %d)", fragOffset+ip.Length, IPv4MaximumSize)
+			"(handcrafted? %d > %d)", fragOffset+int(ip.Length), IPv4MaximumSize)
 	}
 
 	return nil
